@@ -10,12 +10,37 @@ M4 = "s3s::sig_v4::methods::"
 M2 = "s3s::sig_v2::methods::"
 
 
-def result_buffer(body):
+def result_buffer(body, db=None):
+    """the local (or ("field", local, index): a field of a builder struct) whose content the function returns"""
     for w in flow.return_writes(body):
         if w["kind"] == "use":
             p = flow.op_place(w["rv"]["ops"][0])
             if p is not None and not p["proj"]:
                 return p["l"]
+            if p is not None:
+                fs = [e for e in p["proj"] if isinstance(e, dict) and "f" in e]
+                if len(fs) == 1 and all(e == "*" or (isinstance(e, dict) and "f" in e) for e in p["proj"]):
+                    return ("field", p["l"], fs[0]["f"])
+        if w["kind"] == "call" and db is not None:
+            # `writer.finish(..)`: a method of a private builder that hands back its buffer field
+            t = w["term"]
+            cb = db.bodies.get(t["callee"].get("resolved") or "") or db.bodies.get(callee_def(t))
+            if cb is not None and cb.crate == body.crate and t["args"]:
+                try:
+                    inner = result_buffer(cb)
+                except AnchorMissing:
+                    inner = None
+                if isinstance(inner, tuple) and inner[0] == "field" and 1 <= inner[1] <= cb.argc:
+                    a = t["args"][inner[1] - 1]
+                    ch = flow.resolve_chain(body, a) or []
+                    roots = [l for l, pr in ch if not pr]
+                    for l in reversed(roots):       # the variable the value was moved out of, not the temporary handed to the call
+                        ty = body.locals[l] if l < len(body.locals) else ""
+                        if not ty.startswith("&"):
+                            return ("field", l, inner[2])
+                    q = flow.op_place(a)
+                    if q is not None and not q["proj"]:
+                        return ("field", q["l"], inner[2])
     raise AnchorMissing("%s: the result is not a single moved buffer" % body.name)
 
 
@@ -30,6 +55,23 @@ def arg_roles(body, a, frames=()):
     lits = flow.slice_literals(_DB[0], body, sl) if _DB[0] is not None else {c["v"] for c in sl.consts if c.get("c") in ("str", "bstr")}
     items = {short(c["def"]) for c in sl.consts if c.get("c") == "item"}
     way = {short(callee_def(t)) for _, t, _ in sl.calls}
+    # a private helper of the signing code on the way (`included_headers(..)`: an iterator over the headers that are signed) stands for what it
+    # does inside; predicates (functions returning bool) select, they do not transform
+    if _DB[0] is not None:
+        from .. import inline as _inline
+        for _, t, _ in sl.calls:
+            cb = _DB[0].bodies.get(t["callee"].get("resolved") or "") or _DB[0].bodies.get(callee_def(t))
+            if cb is None or cb.crate != body.crate or cb.kind not in ("Fn", "AssocFn") or _inline.is_role(_DB[0], cb):
+                continue
+            way.discard(short(callee_def(t)))
+            for x in _DB[0].nested(cb):
+                for _, ct in x.calls():
+                    if flow.is_transparent(ct) or ct.get("span", {}).get("exp"):
+                        continue
+                    c2 = _DB[0].bodies.get(ct["callee"].get("resolved") or "") or _DB[0].bodies.get(callee_def(ct))
+                    if c2 is not None and c2.raw.get("ret") == "bool":
+                        continue
+                    way.add(short(callee_def(ct)))
     lits = set(lits) | items
     # function items passed as values (`.map(str::trim)`) are waypoints too, and so is whatever a closure in the slice calls
     way |= {short(c["def"]) for c in sl.consts if c.get("c") == "fn" and c.get("def")}
@@ -147,7 +189,7 @@ def check_layout(chk, db, rule, fn, expected, alt_tail=()):
         chk.anchor_missing(rule, "builder %s not found" % fn)
         return
     spec = list(expected) + ([ALT(*alt_tail)] if len(alt_tail) > 1 else list(alt_tail))
-    buf = result_buffer(b)
+    buf = result_buffer(b, db)
     ev = writes.buffer_events(b, buf, db, prim=_spec_callees(spec))
     key = short(fn) + ("@v2" if "sig_v2" in fn else "")
     nodes = layout.canon(ev)
@@ -293,7 +335,7 @@ def rule_r6_v2(chk, db):
     b = db.body(M2 + "create_string_to_sign")
     if b is None:
         raise AnchorMissing("sig_v2 create_string_to_sign not found")
-    buf = result_buffer(b)
+    buf = result_buffer(b, db)
     ev = writes.buffer_events(b, buf, db, prim={"push", "push_str"})
     desc = layout.describe(layout.canon(ev))
     head = V2_STRING_TO_SIGN
